@@ -10,7 +10,7 @@ extern "C" {
 #include <constr_CHOICE.h>
 }
 
-static const char *KINDS[] = {"choice0", "nullptr", "intval", "strlen", "strchar", "bitsunused", "primempty", "setadd", "setdel"};
+static const char *KINDS[] = {"choice0", "nullptr", "intval", "strlen", "strchar", "bitsunused", "primempty", "primbytes", "setadd", "setdel"};
 static const int NKINDS = sizeof(KINDS) / sizeof(KINDS[0]);
 
 static bool eligible(const std::string &kind, const Node &n) {
@@ -22,7 +22,7 @@ static bool eligible(const std::string &kind, const Node &n) {
     if(kind == "intval") return k == K_NATIVE_INTEGER || k == K_NATIVE_ENUMERATED || k == K_BOOLEAN;
     if(kind == "strlen" || kind == "strchar") return k == K_OCTET_STRING || k == K_STRING || k == K_BIT_STRING;
     if(kind == "bitsunused") return k == K_BIT_STRING;
-    if(kind == "primempty") return kind_primbuf(k);
+    if(kind == "primempty" || kind == "primbytes") return kind_primbuf(k);
     if(kind == "setadd" || kind == "setdel") return k == K_SET_OF || k == K_SEQUENCE_OF;
     return false;
 }
@@ -73,6 +73,27 @@ bool apply_damage(asn_TYPE_descriptor_t *td, void *st, const Op &op) {
         ASN__PRIMITIVE_TYPE_t *p = (ASN__PRIMITIVE_TYPE_t *)n.ptr;
         SIM_LIB_ENTER(); free(p->buf); SIM_LIB_LEAVE();
         p->buf = nullptr; p->size = 0;
+    } else if(kind == "primbytes") {
+        // the application (or a peer, through a decoder that stores contents octets verbatim) fills the contents buffer of a
+        // buffer-backed primitive with octets of its own: rare but legal forms and plainly wrong ones
+        struct Pat { const char *p; size_t n; };
+#define PB(s) {s, sizeof(s) - 1}
+        static const Pat REALS[] = {PB("\xA3\x03\x20\x00\x00\x00\x01"), PB("\x8F\x03\x7f\xff\xff\xfd\x01"), PB("\x93\x03\x30\x00\x00\x00\x01"), PB("\x83\x03\x00\x00\x00\x05\x01"),
+                                    PB("\x83\x02\x00\x00\x05\x03"), PB("\x83\x01\x05\x03"), PB("\x83\x00\x01"), PB("\x83\xff\x01"), PB("\xC1\x7f\xff\x01"), PB("\x82\x80\x00\x00\x01"),
+                                    PB("\x80"), PB("\x81\x7f"), PB("\x40"), PB("\x41"), PB("\x42"), PB("\x43"), PB("\x44"), PB("\x03" "1.5E400"), PB("\x01" "15"), PB("\x02" "1.5"), PB("\x00")};
+        static const Pat OIDS[] = {PB("\x80"), PB("\x80\x01"), PB("\xff\xff\xff\xff\xff\xff\xff\xff\xff\x7f"), PB("\x2a\x86"), PB("\xff"), PB("\x78\x00"), PB("\x00")};
+        static const Pat INTS[] = {PB("\x00\x00\x00\x00\x00\x00\x00\x00\x00\x01"), PB("\xff\xff\xff\xff\xff\xff\xff\xff\xff\xfe"), PB("\x00"), PB("\x80\x00\x00\x00\x00\x00\x00\x00\x00"), PB("\x7f\xff\xff\xff\xff\xff\xff\xff\xff")};
+#undef PB
+        Kind k = kind_of(n.td);
+        const Pat *tab = k == K_REAL ? REALS : k == K_OID ? OIDS : INTS;
+        size_t nt = k == K_REAL ? sizeof REALS / sizeof *REALS : k == K_OID ? sizeof OIDS / sizeof *OIDS : sizeof INTS / sizeof *INTS;
+        const Pat &pt = tab[(size_t)arg % nt];
+        ASN__PRIMITIVE_TYPE_t *p = (ASN__PRIMITIVE_TYPE_t *)n.ptr;
+        uint8_t *nb = nullptr;
+        SIM_LIB_ENTER(); nb = (uint8_t *)realloc(p->buf, pt.n + 1); SIM_LIB_LEAVE();
+        if(!nb) return false;
+        memcpy(nb, pt.p, pt.n); nb[pt.n] = 0;
+        p->buf = nb; p->size = pt.n;
     } else if(kind == "setadd") {
         const asn_TYPE_descriptor_t *et = n.td->elements[0].type;
         size_t sz = struct_size_of(et);
